@@ -408,8 +408,12 @@ func ProcessIndexRequestPle(tsNow uint64, indexNameIn string, flush bool,
 	}
 
 	for _, ple := range pleArray {
-		ple.SetTimestamp(utils.ExtractTimeStamp(ple.GetRawJson(), &tsKey))
-		if ple.GetTimestamp() == 0 {
+		// A timestamp field in the document wins; otherwise keep the event time
+		// the protocol handler already set (e.g. OTLP logs set it from
+		// TimeUnixNano) and fall back to the arrival time only if there is none.
+		if ts := utils.ExtractTimeStamp(ple.GetRawJson(), &tsKey); ts != 0 {
+			ple.SetTimestamp(ts)
+		} else if ple.GetTimestamp() == 0 {
 			ple.SetTimestamp(tsNow)
 		}
 	}
